@@ -465,3 +465,89 @@ func (s *Solver) Values(ts []*Term) ([]*Term, error) {
 	}
 	return out, nil
 }
+
+// Script renders a self-contained SMT-LIB2 script asserting the given terms (declarations,
+// definitions in dependency order, preamble functions), for a one-shot run of another solver.
+func Script(tt *TermTable, preamble []string, asserts []*Term) string {
+	var sb strings.Builder
+	sb.WriteString("(set-logic ALL)\n")
+	for _, p := range preamble {
+		sb.WriteString(p)
+		sb.WriteByte('\n')
+	}
+	declared := map[int]bool{}
+	defined := map[int]bool{}
+	ufDone := map[string]bool{}
+	for _, p := range preamble {
+		// names defined by the preamble must not be declared again
+		if i := strings.Index(p, "|"); i >= 0 {
+			if j := strings.Index(p[i+1:], "|"); j >= 0 {
+				ufDone[p[i+1:i+1+j]] = true
+			}
+		}
+	}
+	var visit func(t *Term)
+	visit = func(t *Term) {
+		switch t.Op {
+		case OConst:
+			return
+		case OVar:
+			if !declared[t.ID] {
+				declared[t.ID] = true
+				fmt.Fprintf(&sb, "(declare-const %s %s)\n", t.varName(), t.Sort)
+			}
+			return
+		}
+		if defined[t.ID] {
+			return
+		}
+		defined[t.ID] = true
+		for _, a := range t.Args {
+			visit(a)
+		}
+		if t.Op == OApp && !ufDone[t.Name] {
+			ufDone[t.Name] = true
+			d := tt.ufs[t.Name]
+			var as []string
+			for _, a := range d.args {
+				as = append(as, a.String())
+			}
+			fmt.Fprintf(&sb, "(declare-fun %s (%s) %s)\n", smtName(d.name), strings.Join(as, " "), d.ret)
+		}
+		fmt.Fprintf(&sb, "(define-fun t%d () %s %s)\n", t.ID, t.Sort, t.body())
+	}
+	for _, a := range asserts {
+		visit(a)
+		fmt.Fprintf(&sb, "(assert %s)\n", a.ref())
+	}
+	sb.WriteString("(check-sat)\n")
+	return sb.String()
+}
+
+// OneShot runs a script through a fresh solver process and returns its verdict.
+func OneShot(kind, script string, timeoutMs int) SatResult {
+	var argv []string
+	switch kind {
+	case "z3":
+		argv = []string{"z3", "-in", fmt.Sprintf("-t:%d", timeoutMs)}
+	case "z3new":
+		argv = []string{"z3-new", "-in", fmt.Sprintf("-t:%d", timeoutMs)}
+	default:
+		argv = []string{"cvc5", "--lang=smt2", fmt.Sprintf("--tlimit=%d", timeoutMs), "--fp-exp"}
+	}
+	cmd := exec.Command(argv[0], argv[1:]...)
+	cmd.Stdin = strings.NewReader(script)
+	out, _ := cmd.Output()
+	for _, line := range strings.Split(string(out), "\n") {
+		switch strings.TrimSpace(line) {
+		case "sat":
+			return RSat
+		case "unsat":
+			return RUnsat
+		}
+		if strings.HasPrefix(strings.TrimSpace(line), "(error") {
+			return RUnknown
+		}
+	}
+	return RUnknown
+}
